@@ -40,8 +40,18 @@ def Verdict.and (a b : Verdict) : Verdict :=
   { corrOk := a.corrOk && b.corrOk, propOk := a.propOk && b.propOk,
     skip := a.skip <|> b.skip, detail := a.detail ++ b.detail }
 
+/-- first differing line of two multi-line texts -/
+def firstDiff (a b : String) : String × String :=
+  let rec go : List String → List String → String × String
+    | x :: xs, y :: ys => if x == y then go xs ys else (x, y)
+    | x :: _, [] => (x, "<end>")
+    | [], y :: _ => ("<end>", y)
+    | [], [] => ("", "")
+  go (a.splitOn "\n") (b.splitOn "\n")
+
 def corrFail (what : String) (model impl : String) : Verdict :=
-  { corrOk := false, detail := [s!"corr {what}: model={SExp.quote model} impl={SExp.quote impl}"] }
+  let (m, i) := firstDiff model impl
+  { corrOk := false, detail := [s!"corr {what}: model={SExp.quote m} impl={SExp.quote i}"] }
 
 def propFail (what : String) : Verdict :=
   { propOk := false, detail := [s!"prop {what}"] }
